@@ -15,7 +15,8 @@ SNAPSHOT_EXEMPT = {
 
 def clause_snapshot_before_merge(prog, rep):
     scope = K.core_scope(prog)
-    snap = A.ReachCache(prog, lambda c: K.is_storage_trait_call(c, "create_group_snapshot"))
+    # a guard call must *guarantee* a successful storage snapshot before it returns Ok (not merely reach one)
+    snap = A.Guarantee(prog, lambda c: K.is_storage_trait_call(c, "create_group_snapshot"))
     ga = A.GuardAnalysis(prog, is_guard=lambda c: snap.call(c) and not K.is_mls_call(c, *MERGES),
                          is_boundary=K.api_boundary, scope_paths=scope, mode="success")
     sinks = A.sink_sites(prog, lambda c: K.is_mls_call(c, *MERGES), scope)
